@@ -45,6 +45,15 @@ def run(ctx, out):
                              ([], {(0, 12): "stall", (1, 4): "stall"}), ([], {(k, 5): "stall" for k in range(1, 70)} | {(0, 12): "stall"})):
             ops.append(G.op_line(cfg, calls, G.script_str(cfg, None, faults, conn)))
             meta.append((cfg, calls, "connect-stalls", max(1, len(conn), len(faults))))
+    # a SLOW terminal (5 virtual seconds before every packet) that also falls silent at item j: the reconnect handshake then takes
+    # 20 s — longer than read_card's packet time-out of 17 s / 7 s, shorter than the 60 s handshake guard
+    for calls, mx in HISTORIES:
+        for t in ((15, 5) if "readcard" in calls else (15,)):
+            cfg = G.default_cfg(max=mx, timeout=t)
+            a = baseline(spec, cfg, calls)
+            for j in range(len(a.trigger)):
+                ops.append(G.op_line(cfg, calls, G.script_str(cfg, None, {(0, j): "stall"}) + " gap=5"))
+                meta.append((cfg, calls, f"slow-stall@{j}", 1))
     # a terminal that keeps reporting a pending pre-authorisation (receipt 5 / 9999) and falls silent in every reversal exchange for it
     # (after the acknowledgement, or after an intermediate status), while it answers handshakes and pending queries normally
     P = G.Packets(spec)
@@ -78,7 +87,7 @@ def run(ctx, out):
         # the time-out never collapses to zero: a stalled read_card exchange costs at least 2 virtual seconds per attempt
         if kd.startswith("stall@") and "readcard" in calls and results[-1][1] == 0 and cfg["timeout"] >= 0:
             pass
-    out.rule = ("a stall (terminal silent, connection open) at EVERY item of every exchange of 5 call histories (handshake included) x read_card_timeout in {0,1,15,253,254,255} (thorough: 0..255); the same with the terminal silent at that place of the retried exchange on all 1500 later connections (a client without a retry budget then needs more than the one-virtual-day watchdog) (the retry budget of each exchange must end the call); stalled connects, "
+    out.rule = ("a stall (terminal silent, connection open) at EVERY item of every exchange of 5 call histories (handshake included) x read_card_timeout in {0,1,15,253,254,255} (thorough: 0..255); the same with the terminal silent at that place of the retried exchange on all 1500 later connections (a client without a retry budget then needs more than the one-virtual-day watchdog) (the retry budget of each exchange must end the call); the single stalls again with a terminal that pauses 5 s before every packet (reconnect handshakes of 20 s); stalled connects, "
                 "stalls during registration on consecutive connections, a terminal that is mute for ever (70 connections); a terminal that reports a pending pre-authorisation at every query and never completes its reversal. Oracle: every call returns (no hang under a one-virtual-day watchdog, no panic) within "
                 "6 x 20 x (60 + 2 + 5 x max(60, timeout+2)) virtual seconds; implementation = model EXACTLY in results, traffic and virtual time stamps (so a time-out that overflowed or collapsed to 0 would show)")
     out.samples = [ops[7][:400], {"op": ops[-1][:300], "impl": impl[-1][:300]}]
